@@ -141,6 +141,7 @@ func (s *Server) servePacket(pc net.PacketConn) error {
 				conn = &packetConn{
 					PacketConn: pc,
 					readCh:     make(chan *packet, 5),
+					closed:     make(chan struct{}),
 					addr:       pkt.addr,
 					closeCh:    closeCh,
 				}
@@ -155,7 +156,13 @@ func (s *Server) servePacket(pc net.PacketConn) error {
 					// the old one shutting down.
 				}(conn)
 			}
-			conn.readCh <- &pkt
+			select {
+			case conn.readCh <- &pkt:
+			case <-conn.closed:
+				// The handler has just ended and its close notification has not
+				// been processed yet: nobody will read this datagram anymore.
+				udpBufPool.Put(pkt.pooledBuf)
+			}
 		}
 	}
 }
@@ -233,8 +240,11 @@ type packet struct {
 
 type packetConn struct {
 	net.PacketConn
-	addr    net.Addr
-	readCh  chan *packet
+	addr   net.Addr
+	readCh chan *packet
+	// closed is closed by Close(). readCh itself is never closed, because the
+	// server loop, not packetConn, is the sender on it.
+	closed  chan struct{}
 	closeCh chan string
 	// If not nil, then the previous Read() call didn't consume all the data
 	// from the buffer, and this packet will be reused in the next Read()
@@ -303,12 +313,10 @@ func (pc *packetConn) Read(b []byte) (n int, err error) {
 	var done bool
 	for !done {
 		select {
+		case <-pc.closed:
+			// Connection is closed. Return EOF below.
+			done = true
 		case pkt := <-pc.readCh:
-			if pkt == nil {
-				// Channel is closed. Return EOF below.
-				done = true
-				break
-			}
 			buf := bytes.NewReader(pkt.pooledBuf[:pkt.n])
 			n, err = buf.Read(b)
 			if buf.Len() == 0 {
@@ -353,10 +361,15 @@ func (pc *packetConn) Close() error {
 		pc.lastPacket = nil
 	}
 	// This will abort any active Read() from another goroutine and return EOF
-	close(pc.readCh)
+	close(pc.closed)
 	// Drain pending packets to ensure we release buffers back to the pool
-	for pkt := range pc.readCh {
-		udpBufPool.Put(pkt.pooledBuf)
+	for drained := false; !drained; {
+		select {
+		case pkt := <-pc.readCh:
+			udpBufPool.Put(pkt.pooledBuf)
+		default:
+			drained = true
+		}
 	}
 	// We may have already done this earlier in Read(), but just in case
 	// Read() wasn't being called, (re-)notify server loop we're closed.
